@@ -111,11 +111,40 @@ def gen_pairs(rng, per_op):
                 variants = [dict(dfmt=X, sfmt=sf, mkind=mk), dict(dfmt=A, sfmt=sf, mkind=mk)]
                 if rng.random() < 0.7:
                     quant |= 2          # destination with REPEAT_NORMAL: the alpha-less one is flagged opaque
+            if fam in ("S1", "S2") and rng.random() < 0.5:
+                mkind = rng.choice([1, 4, 6, 6, 2, 5])       # the same mask in both presentations of the source
             for vi, v in enumerate(variants):
                 lines.append(preq(pair, vi, cmp_, op, v.get("skind", skind), v["sfmt"], sw, sh, srep, sfilt, t,
                                   v.get("mkind", mkind), v.get("dfmt", dfmt), dw, dh, sx, sy, dx, dy, w, h, seed,
                                   quant))
             pair += 1
+    # Systematic suite along the fast-path tables: the operators that have special-cased routines x every kind of mask
+    # x every destination family x untransformed / nearest-scaled / bilinear-scaled geometry, with the source presented
+    # alpha-less (junk in the x byte) and with alpha 255, and (second family) the destination presented both ways.
+    for op in (1, 3, 12, 5, 6, 8, 4, 10):      # SRC OVER ADD IN IN_REVERSE OUT_REVERSE OVER_REVERSE ATOP_REVERSE
+        for mk in (0, 1, 6, 4, 2, 5, 3):
+            for dfmt in (A, X, R565):
+                for geo in ("plain", "nearest-scaled", "bilinear-scaled"):
+                    dw, dh = rng.randint(9, 14), 2
+                    w, h = dw - rng.randint(0, 2), dh
+                    dx, dy = dw - w, 0
+                    seed = rng.randrange(1, 2 ** 31)
+                    sw, sh = dw + 6, dh + 4
+                    t, sfilt = [FX1, 0, 0, FX1, 0, 0], 3
+                    if geo != "plain":
+                        t = [rng.choice([FX1 * 3 // 2, FX1 // 2]), 0, 0, FX1, 0, 0]
+                        sfilt = 3 if geo == "nearest-scaled" else 4
+                    srep = rng.choice([0, 1, 2, 3]) if geo != "plain" else 0
+                    for vi, sf in enumerate((X, A)):
+                        lines.append(preq(pair, vi, 0, op, 0, sf, sw, sh, srep, sfilt, t, mk, dfmt, dw, dh,
+                                          1, 1, dx, dy, w, h, seed, 0))
+                    pair += 1
+                    if dfmt != R565 and geo == "plain":
+                        sk = rng.choice([0, 4])
+                        for vi, df in enumerate((X, A)):
+                            lines.append(preq(pair, vi, 0, op, sk, A, sw, sh, 0, 3, t, mk, df, dw, dh,
+                                              1, 1, dx, dy, w, h, seed, 0))
+                        pair += 1
     return lines, pair
 
 
@@ -161,7 +190,7 @@ def run(prop, args):
     chk.extra["pairs"] = npairs
     traces = []
     import json
-    for i, dis in enumerate(["", "fast mmx sse2 ssse3"] + ([] if quick else ["sse2 ssse3", "wholeops"])):
+    for i, dis in enumerate(["", "fast mmx sse2 ssse3", "mmx sse2 ssse3"] + ([] if quick else ["sse2 ssse3", "wholeops"])):
         raw = os.path.join(wd, "raw%d.ndjson" % i)
         env = dict(os.environ)
         env["PIXMAN_DISABLE"] = dis
